@@ -14,6 +14,7 @@ import (
 	"sort"
 	"strconv"
 	"strings"
+	"time"
 
 	"github.com/rogpeppe/go-internal/cache"
 
@@ -57,14 +58,52 @@ type hop struct {
 	N    int    // trunc length / flip position
 	Raw  []byte // extend bytes / write contents
 	T    int    // repl: content index written
+	Hd   int    // API ops: which of the *cache.Cache values opened on the directory makes the call
+	CB   *cbSpec
 }
 
+// cbSpec (kind putcb): the source reader given to Put makes a lookup of its own, through handle
+// Hd, when its Read is called for the N-th time (0-based) in pass Pass (1: the hash pass, 2: the
+// copy pass, where the output file is open and partly written).  A deterministic interleaving of
+// a lookup with a Put in progress: what another goroutine or process may do at that moment.
+type cbSpec struct {
+	Pass, N int
+	Op      string // get | getbytes | getfile
+	ID, Hd  int
+}
+
+const nHandles = 3
+
 func (h hop) String() string {
-	return fmt.Sprintf("%s:%d:%d:%s:%d:%d:%s", h.Kind, h.ID, h.C, h.K, h.N, h.T, common.Hex(h.Raw))
+	s := fmt.Sprintf("%s:%d:%d:%s:%d:%d:%s", h.Kind, h.ID, h.C, h.K, h.N, h.T, common.Hex(h.Raw))
+	if h.Hd != 0 || h.CB != nil {
+		s += fmt.Sprintf(":%d", h.Hd)
+		if h.CB != nil {
+			s += fmt.Sprintf("/%d.%d.%s.%d.%d", h.CB.Pass, h.CB.N, h.CB.Op, h.CB.ID, h.CB.Hd)
+		}
+	}
+	return s
 }
 
 func parseHop(s string) (hop, error) {
 	p := strings.Split(s, ":")
+	if len(p) == 8 {
+		hd, cb, _ := strings.Cut(p[7], "/")
+		h, err := parseHop(strings.Join(p[:7], ":"))
+		if err != nil {
+			return h, err
+		}
+		h.Hd, _ = strconv.Atoi(hd)
+		if f := strings.Split(cb, "."); len(f) == 5 {
+			c := &cbSpec{Op: f[2]}
+			c.Pass, _ = strconv.Atoi(f[0])
+			c.N, _ = strconv.Atoi(f[1])
+			c.ID, _ = strconv.Atoi(f[3])
+			c.Hd, _ = strconv.Atoi(f[4])
+			h.CB = c
+		}
+		return h, nil
+	}
 	if len(p) != 7 {
 		return hop{}, fmt.Errorf("bad hop %q", s)
 	}
@@ -212,6 +251,15 @@ func (m *mdl) honestPutReq(id cache.ActionID, tm int64, d []byte) string {
 	return fmt.Sprintf("put %s %d 1 1 %s 1 %s", hex.EncodeToString(id[:]), tm, m.ref(d), strings.Join(chunks, " "))
 }
 
+// srcPutReq: a Put from an in-memory source that is at offset pos when Put gets it.
+func (m *mdl) srcPutReq(id cache.ActionID, tm int64, d []byte, pos int) string {
+	var chunks []string
+	for _, ch := range chunk32k(d, len(d)-1) {
+		chunks = append(chunks, m.ref(ch))
+	}
+	return fmt.Sprintf("putsrc %s %d %d %s", hex.EncodeToString(id[:]), tm, pos, strings.Join(chunks, " "))
+}
+
 func showBytes(b []byte) string {
 	if len(b) <= 512 {
 		return common.Hex(b)
@@ -259,7 +307,31 @@ func runHistory(work string, m *mdl, hs []hop) histOutcome {
 		}
 		sharedCache = c
 	}
-	dir, c := sharedDir, sharedCache
+	// every history starts with fresh handles: nothing a handle may remember is carried over from the
+	// previous history (a history is replayable on its own)
+	sharedHandles = make([]*cache.Cache, nHandles)
+	dir := sharedDir
+	handle := func(k int) *cache.Cache {
+		if k < 0 {
+			k = -k
+		}
+		k %= nHandles
+		if sharedHandles[k] == nil { // opened when the history first uses it
+			c, err := cache.Open(sharedDir)
+			if err != nil {
+				out.tags["open-failed"]++
+				return sharedCache
+			}
+			sharedHandles[k] = c
+		}
+		return sharedHandles[k]
+	}
+	several := false // does the history use more than one handle?
+	for _, h := range hs {
+		if h.Hd%nHandles != 0 || (h.CB != nil && h.CB.Hd%nHandles != 0) {
+			several = true
+		}
+	}
 	for _, p := range knownFiles(dir) {
 		os.Remove(p)
 	}
@@ -290,24 +362,34 @@ func runHistory(work string, m *mdl, hs []hop) histOutcome {
 				continue
 			}
 			oid := ids[oi]
-			got := common.Safely(func() string {
-				b, _, err := c.GetBytes(oid)
-				if err != nil {
-					return "NF"
+			for hk := 0; hk < nHandles; hk++ {
+				if (!several && hk != 0) || (len(want) > 4096 && several && hk != (i+oi)%nHandles) {
+					continue // one handle when the history uses one; the big content through one handle per step (cost)
 				}
-				if !bytes.Equal(b, want) {
-					return "F other bytes " + showBytes(b)
+				got := common.Safely(func() string {
+					b, _, err := handle(hk).GetBytes(oid)
+					if err != nil {
+						return "NF"
+					}
+					defer scribble(b)
+					if !bytes.Equal(b, want) {
+						return "F other bytes " + showBytes(b)
+					}
+					return "same"
+				})
+				if got != "same" {
+					viol(i, "unrelated-entry-lost", fmt.Sprintf("id%d was stored (%d bytes) and never overwritten or damaged since; after the Put of id%d at step %d GetBytes(id%d) through handle %d gives %s", oi, len(want), justPut, i, oi, hk, trunc(got)))
 				}
-				return "same"
-			})
-			if got != "same" {
-				viol(i, "unrelated-entry-lost", fmt.Sprintf("id%d was stored (%d bytes) and never overwritten or damaged since; after the Put of id%d at step %d GetBytes(id%d) gives %s", oi, len(want), justPut, i, oi, trunc(got)))
 			}
 		}
 	}
 	for i, h := range hs {
 		id := ids[h.ID%len(ids)]
 		idhex := hex.EncodeToString(id[:])
+		c := handle(h.Hd)
+		if h.Hd != 0 {
+			out.tags["handle:other"]++
+		}
 		var impl string
 		switch h.Kind {
 		case "get", "getbytes", "getfile":
@@ -327,6 +409,7 @@ func runHistory(work string, m *mdl, hs []hop) histOutcome {
 					if err != nil {
 						return "NF"
 					}
+					defer scribble(b)
 					if !bytes.Equal(b, want) {
 						return "other bytes " + showBytes(b)
 					}
@@ -338,7 +421,7 @@ func runHistory(work string, m *mdl, hs []hop) histOutcome {
 			}
 		case "special":
 			expect = map[int][]byte{}
-		case "put", "putbytes", "putoff", "putreuse", "outputfile":
+		case "put", "putbytes", "putoff", "putreuse", "putcb", "outputfile":
 		default: // damage
 			if h.K == "a" {
 				delete(expect, h.ID%len(ids))
@@ -351,15 +434,72 @@ func runHistory(work string, m *mdl, hs []hop) histOutcome {
 			}
 		}
 		switch h.Kind {
-		case "put", "putbytes", "putoff", "putreuse":
+		case "put", "putbytes", "putoff", "putreuse", "putcb":
 			d := contents[h.C%len(contents)]
 			var reused *bytes.Reader
+			outPath, _, _ := hop{K: "d", C: h.C}.target(dir)
+			_, statErr := os.Stat(outPath)
+			outputExisted := statErr == nil
+			inner := "NOCB"
 			impl = common.Safely(func() string {
 				var err error
 				var o cache.OutputID
 				var n int64
 				if h.Kind == "put" {
 					o, n, err = c.Put(id, bytes.NewReader(d))
+				} else if h.Kind == "putcb" && h.CB != nil {
+					// the source makes a lookup of its own in the middle of the Put
+					cb := *h.CB
+					cid := ids[cb.ID%len(ids)]
+					rd := &cbReader{rd: bytes.NewReader(d), want: cb}
+					rd.fire = func() {
+						out.tags["putcb:fired:pass"+fmt.Sprint(cb.Pass)]++
+						inner = common.Safely(func() string {
+							ch := handle(cb.Hd)
+							switch cb.Op {
+							case "get":
+								e, err := ch.Get(cid)
+								if err != nil {
+									return "NF"
+								}
+								return "F " + showEntry(e)
+							case "getfile":
+								file, e, err := ch.GetFile(cid)
+								if err != nil {
+									return "NF"
+								}
+								if st, err := os.Stat(file); err != nil || st.Size() != e.Size {
+									viol(i, "getfile-size", fmt.Sprintf("GetFile(id%d), called while a Put was in progress, named %s whose length is not the reported size %d", cb.ID%len(ids), filepath.Base(file), e.Size))
+								}
+								if want, ok := expect[cb.ID%len(ids)]; ok {
+									if b, _ := os.ReadFile(file); !bytes.Equal(b, want) {
+										viol(i, "stored-then-lost", fmt.Sprintf("id%d was stored (%d bytes) and never overwritten or damaged since, yet the file GetFile names while a Put (id%d) is in progress holds %s", cb.ID%len(ids), len(want), h.ID%len(ids), showBytes(b)))
+									}
+								}
+								return "F " + filepath.Base(file) + " " + showEntry(e)
+							default:
+								b, e, err := ch.GetBytes(cid)
+								if err != nil {
+									return "NF"
+								}
+								defer scribble(b)
+								if sha256.Sum256(b) != e.OutputID {
+									viol(i, "getbytes-checksum", fmt.Sprintf("GetBytes(id%d), called while a Put was in progress, returned %d bytes whose SHA-256 is not the reported OutputID %x", cb.ID%len(ids), len(b), e.OutputID))
+								}
+								if want, ok := expect[cb.ID%len(ids)]; ok && !bytes.Equal(b, want) {
+									viol(i, "stored-then-lost", fmt.Sprintf("id%d was stored (%d bytes) and never overwritten or damaged since, yet GetBytes while a Put (id%d) is in progress returns other bytes %s", cb.ID%len(ids), len(want), h.ID%len(ids), showBytes(b)))
+								}
+								return "F " + showBytes(b) + " " + showEntry(e)
+							}
+						})
+						if _, ok := expect[cb.ID%len(ids)]; ok && inner == "NF" {
+							viol(i, "stored-then-lost", fmt.Sprintf("id%d was stored and never overwritten or damaged since, yet %s(id%d), called while the Put of step %d (id%d) was in progress, misses", cb.ID%len(ids), cb.Op, cb.ID%len(ids), i, h.ID%len(ids)))
+						}
+						if inner == "PANIC" {
+							viol(i, "no-panic", fmt.Sprintf("%s(id%d) panicked when called while a Put was in progress", cb.Op, cb.ID%len(ids)))
+						}
+					}
+					o, n, err = c.Put(id, rd)
 				} else if h.Kind == "putoff" || h.Kind == "putreuse" {
 					// the source is not at offset 0 when Put gets it (partly consumed); Put must rewind
 					rd := bytes.NewReader(d)
@@ -375,14 +515,29 @@ func runHistory(work string, m *mdl, hs []hop) histOutcome {
 						o, n, err = c.Put(id, rd)
 					}
 				} else {
-					err = c.PutBytes(id, d)
+					mine := append(make([]byte, 0, len(d)+16), d...)
+					err = c.PutBytes(id, mine)
+					scribble(mine) // the data is the caller's again once PutBytes has returned
 					o, n = outOf(d), int64(len(d))
 				}
 				if err != nil {
 					return "PUTFAILED"
 				}
+				if o != outOf(d) || n != int64(len(d)) {
+					viol(i, "put-result", fmt.Sprintf("%s(id%d) of %d bytes returned OutputID %x and size %d, which are not the SHA-256 and length of the data it was given", h.Kind, h.ID%len(ids), len(d), o, n))
+				}
 				return fmt.Sprintf("PUTOK %s %d", hex.EncodeToString(o[:]), n)
 			})
+			if impl == "PUTFAILED" {
+				// nothing was injected: the source is a well-behaved in-memory reader and the directory is writable
+				what := "on a store that held no file for this output"
+				oname := "put-failed"
+				if outputExisted {
+					what = "although a later Put of the same content must repair a damaged stored output (a file for this output, intact or damaged, existed)"
+					oname = "put-repairs"
+				}
+				viol(i, oname, fmt.Sprintf("%s(id%d) of content %d (%d bytes) from a well-behaved source failed %s", h.Kind, h.ID%len(ids), h.C%len(contents), len(d), what))
+			}
 			tm, ok := readTm(dir, id)
 			if !ok {
 				tm = 1
@@ -395,11 +550,30 @@ func runHistory(work string, m *mdl, hs []hop) histOutcome {
 				}
 				ask(i, "c05_put_holds_on", fmt.Sprintf("putholds05 %s %d %s", idhex, tm, strings.Join(ch, " ")), "true")
 			}
-			ask(i, h.Kind, m.honestPutReq(id, tm, d), impl)
+			if h.Kind == "putcb" && h.CB != nil {
+				// the model: the Put program with the lookup program run to completion before its N-th write
+				// to the output file (pass 2), or before its first operation (pass 1); "NOCB" when that point is never reached
+				var ch []string
+				for _, x := range chunk32k(d, len(d)-1) {
+					ch = append(ch, m.ref(x))
+				}
+				pass := h.CB.Pass
+				if inner == "NOCB" && pass == 1 {
+					pass = 0 // a Read of the hash pass that never happens (the data was shorter)
+				}
+				cid := ids[h.CB.ID%len(ids)]
+				ask(i, "putcb:"+h.CB.Op, fmt.Sprintf("putcb %s %d %d %d %s %s %s", idhex, tm, pass, h.CB.N, h.CB.Op, hex.EncodeToString(cid[:]), strings.Join(ch, " ")), impl+" ;; "+inner)
+			} else if h.Kind == "putoff" || h.Kind == "putreuse" {
+				// the model's positioned source (reader_of_memsrc): what a pass reads depends on whether the code rewinds first
+				ask(i, h.Kind, m.srcPutReq(id, tm, d, min(h.N, len(d))), impl)
+			} else {
+				ask(i, h.Kind, m.honestPutReq(id, tm, d), impl)
+			}
 			if len(d) <= 512 {
 				holdsReq(i)
 			}
 			out.tags["op:put"]++
+			out.tags["op:"+h.Kind]++
 			if strings.HasPrefix(impl, "PUTOK") {
 				expect[h.ID%len(ids)] = d
 				checkOthers(i, h.ID%len(ids))
@@ -413,6 +587,7 @@ func runHistory(work string, m *mdl, hs []hop) histOutcome {
 					if err != nil {
 						return "NF"
 					}
+					defer scribble(b)
 					if !bytes.Equal(b, d) {
 						return "F other bytes " + showBytes(b)
 					}
@@ -453,7 +628,7 @@ func runHistory(work string, m *mdl, hs []hop) histOutcome {
 				if !ok2 {
 					tm2 = 1
 				}
-				ask(i, "putreuse-second", m.honestPutReq(id2, tm2, d), impl2)
+				ask(i, "putreuse-second", m.srcPutReq(id2, tm2, d, len(d)), impl2)
 				if strings.HasPrefix(impl2, "PUTOK") {
 					expect[(h.ID+1)%len(ids)] = d
 					checkOthers(i, (h.ID+1)%len(ids))
@@ -492,6 +667,7 @@ func runHistory(work string, m *mdl, hs []hop) histOutcome {
 				if err != nil {
 					return "NF"
 				}
+				defer scribble(b)
 				if sha256.Sum256(b) != e.OutputID {
 					viol(i, "getbytes-checksum", fmt.Sprintf("GetBytes returned %d bytes whose SHA-256 is not the reported OutputID %x", len(b), e.OutputID))
 				}
@@ -707,6 +883,8 @@ func runHistory(work string, m *mdl, hs []hop) histOutcome {
 		reqs[i] = s.req
 	}
 	var ans []string
+	tm0 := time.Now()
+	defer func() { modelTime += time.Since(tm0) }()
 	for try := 0; try < 40; try++ {
 		var err error
 		ans, err = m.m.Ask(reqs)
@@ -736,6 +914,10 @@ func runHistory(work string, m *mdl, hs []hop) histOutcome {
 			got = canonModel(got, false)
 		case "getbytes", "getfile", "getbytes-after-put":
 			got = canonModel(got, true)
+		case "putcb:get", "putcb:getbytes", "putcb:getfile":
+			if a, b, ok := strings.Cut(got, " ;; "); ok {
+				got = a + " ;; " + canonModel(b, s.what != "putcb:get")
+			}
 		}
 		if got != s.want && out.corr == nil {
 			out.corr = &common.Violation{Kind: "correspondence", Oracle: s.what,
@@ -747,6 +929,52 @@ func runHistory(work string, m *mdl, hs []hop) histOutcome {
 }
 
 var sharedCache *cache.Cache
+
+// modelTime: time spent waiting for the model's answers to the batches of the histories
+var modelTime time.Duration
+
+// sharedHandles: several *cache.Cache values opened on the one directory (cache.Open documents
+// that any number of them, in any number of processes, may use a directory at once); every API
+// step of a history names the one it goes through.
+var sharedHandles []*cache.Cache
+
+// scribble is what a caller is free to do with a slice GetBytes returned to it, or with the data it
+// gave to PutBytes once that has returned: overwrite it in place, and use its spare capacity.
+func scribble(b []byte) {
+	for i := range b {
+		b[i] ^= 0xA5
+	}
+	spare := b[len(b):cap(b)]
+	for i := range spare {
+		spare[i] = 0x5A
+	}
+}
+
+// cbReader is an io.ReadSeeker over data that calls fire once, when its Read is called for the
+// n-th time in the given pass (a pass starts with each Seek).
+type cbReader struct {
+	rd    *bytes.Reader
+	pass  int
+	nread int
+	want  cbSpec
+	fire  func()
+	fired bool
+}
+
+func (r *cbReader) Seek(off int64, whence int) (int64, error) {
+	r.pass++
+	r.nread = 0
+	return r.rd.Seek(off, whence)
+}
+
+func (r *cbReader) Read(p []byte) (int, error) {
+	if !r.fired && r.pass == r.want.Pass && r.nread == r.want.N {
+		r.fired = true
+		r.fire()
+	}
+	r.nread++
+	return r.rd.Read(p)
+}
 
 func trunc(s string) string {
 	if len(s) > 400 {
@@ -1022,6 +1250,12 @@ func genHistory(r *common.RNG) ([]hop, []string) {
 				hs = append(hs, hop{Kind: k, ID: id, C: c, N: 1 + r.Intn(len(contents[c])+1), T: r.Intn(2)})
 				continue
 			}
+			if r.Chance(1, 5) {
+				// the source looks something up while the Put is in progress
+				hs = append(hs, hop{Kind: "putcb", ID: id, C: c, CB: &cbSpec{Pass: 1 + r.Intn(2), N: r.Intn(3),
+					Op: []string{"get", "getbytes", "getfile"}[r.Intn(3)], ID: r.Intn(len(ids)), Hd: r.Intn(nHandles)}})
+				continue
+			}
 			hs = append(hs, hop{Kind: k, ID: id, C: c})
 		case x < 34:
 			hs = append(hs, hop{Kind: "get", ID: id})
@@ -1092,10 +1326,29 @@ func genHistory(r *common.RNG) ([]hop, []string) {
 			}
 		}
 	}
+	// which of the handles opened on the directory makes each call: mostly one, every fourth history several
+	if r.Chance(1, 4) {
+		for i := range hs {
+			switch hs[i].Kind {
+			case "put", "putbytes", "putoff", "putreuse", "putcb", "get", "getbytes", "getfile", "outputfile":
+				hs[i].Hd = r.Intn(nHandles)
+			}
+		}
+	}
 	return hs, kinds
 }
 
 func runC05(f *common.Flags, res *common.Result, m *mdl) {
+	t0, tlast, tname := time.Now(), time.Now(), "setup"
+	var phases []string
+	phase := func(name string) {
+		phases = append(phases, fmt.Sprintf("%s %.1fs", tname, time.Since(tlast).Seconds()))
+		tlast, tname = time.Now(), name
+	}
+	defer func() {
+		phase("end")
+		res.Notes = append(res.Notes, fmt.Sprintf("time per part of the C05 run (total %.1fs, of which %.1fs waiting for the model on histories): %s", time.Since(t0).Seconds(), modelTime.Seconds(), strings.Join(phases, ", ")))
+	}()
 	report := func(hs []hop, o histOutcome) {
 		bad := func(cand []hop) bool {
 			oo := runHistory(f.Work, m, cand)
@@ -1158,6 +1411,7 @@ func runC05(f *common.Flags, res *common.Result, m *mdl) {
 		}
 		return
 	}
+	phase("1")
 	// 1. corpus: one history per file
 	if f.Corpus != "" {
 		ents, _ := filepath.Glob(filepath.Join(f.Corpus, "*"))
@@ -1168,6 +1422,7 @@ func runC05(f *common.Flags, res *common.Result, m *mdl) {
 			}
 		}
 	}
+	phase("1b")
 	// 1b. systematically degenerate entries, with the named output present
 	for _, ci := range []int{1, 0} {
 		for _, rc := range degenerateEntries(0, ci) {
@@ -1184,6 +1439,7 @@ func runC05(f *common.Flags, res *common.Result, m *mdl) {
 			one(hs, "degenerate")
 		}
 	}
+	phase("1c")
 	// 1c. sources that are not at offset 0, a reused source, and every special damage of an index
 	// and of a data file, with the entry present
 	for _, ci := range []int{1, 3, 0} {
@@ -1200,6 +1456,7 @@ func runC05(f *common.Flags, res *common.Result, m *mdl) {
 			}
 		}
 	}
+	phase("1d")
 	// 1d. Put, damage of the stored output (same length and other), Put of the same content again
 	// (same id or another one), lookups; and two or three ids sharing one output of which one is
 	// re-pointed to another content
@@ -1224,7 +1481,57 @@ func runC05(f *common.Flags, res *common.Result, m *mdl) {
 			}
 		}
 	}
+	phase("1e")
+	// 1e. several handles on the directory: one looks an id up before another stores it (never stored,
+	// or its index entry deleted), then looks it up again
+	for _, ci := range []int{1, 3, 0} {
+		for _, lk := range []string{"get", "getbytes", "getfile"} {
+			for _, ab := range [][2]int{{1, 0}, {0, 1}, {1, 2}} {
+				a, b := ab[0], ab[1]
+				one([]hop{{Kind: lk, ID: 0, Hd: a}, {Kind: "put", ID: 0, C: ci, Hd: b}, {Kind: "getbytes", ID: 0, Hd: a}, {Kind: "getfile", ID: 0, Hd: a}, {Kind: "get", ID: 0, Hd: a},
+					{Kind: "getbytes", ID: 0, Hd: b}}, "handles")
+				one([]hop{{Kind: "putbytes", ID: 0, C: ci, Hd: a}, {Kind: "delete", K: "a", ID: 0}, {Kind: lk, ID: 0, Hd: a}, {Kind: "putbytes", ID: 0, C: ci, Hd: b},
+					{Kind: "getbytes", ID: 0, Hd: a}, {Kind: "getfile", ID: 0, Hd: a}, {Kind: "put", ID: 1, C: ci ^ 1, Hd: a}, {Kind: "getbytes", ID: 1, Hd: b}}, "handles")
+			}
+		}
+	}
+	phase("1f")
+	// 1f. a lookup made by the source reader of a Put (before its first file operation / before its
+	// first and its last write to the output), of an id that names the output being written or another
+	// one, with that output intact, damaged with and without change of length, or gone
+	for _, ci := range []int{1, 3, 5} {
+		ln := len(contents[ci])
+		dmgs := []*hop{nil, {Kind: "flip", K: "d", C: ci, N: ln / 2}, {Kind: "trunc", K: "d", C: ci, N: ln - 1}, {Kind: "trunc", K: "d", C: ci, N: 0},
+			{Kind: "delete", K: "d", C: ci}, {Kind: "extend", K: "d", C: ci, Raw: []byte("zz")}}
+		last := len(chunk32k(contents[ci], ln-1)) - 1
+		for di, dm := range dmgs {
+			for _, op := range []string{"get", "getbytes", "getfile"} {
+				for _, at := range [][2]int{{1, 0}, {2, 0}, {2, last}} {
+					if ci == 5 && (op != "getbytes" || di == 3 || di == 5 || at[0] == 1) {
+						continue // the 40000-byte content (two writes before the committing one): a subset (cost of the model)
+					}
+					for _, own := range []bool{false, true} {
+						if ci == 5 && own {
+							continue
+						}
+						putID := 0
+						if own {
+							putID = 1
+						}
+						hs := []hop{{Kind: "put", ID: 1, C: ci}}
+						if dm != nil {
+							hs = append(hs, *dm)
+						}
+						hs = append(hs, hop{Kind: "putcb", ID: putID, C: ci, CB: &cbSpec{Pass: at[0], N: at[1], Op: op, ID: 1, Hd: 1}},
+							hop{Kind: "getbytes", ID: putID}, hop{Kind: "getfile", ID: putID}, hop{Kind: "getbytes", ID: 1, Hd: 1})
+						one(hs, "lookup-inside-put")
+					}
+				}
+			}
+		}
+	}
 	r := common.NewRNG(f.Seed)
+	phase("2")
 	// 2. the entry codec alone: raw entry, then Get / GetBytes / GetFile (with and without the output present)
 	nCodec, nHist, nTrace := 700, 1500, 120
 	if f.Tier == "thorough" {
@@ -1241,6 +1548,7 @@ func runC05(f *common.Flags, res *common.Result, m *mdl) {
 		res.Count("raw:" + tag)
 		one(hs, "codec")
 	}
+	phase("3")
 	// 3. random histories
 	for i := 0; i < nHist; i++ {
 		hs, kinds := genHistory(r)
@@ -1249,6 +1557,7 @@ func runC05(f *common.Flags, res *common.Result, m *mdl) {
 		}
 		one(hs, "history")
 	}
+	phase("3b")
 	// 3b. cache.Open: 256 two-digit subdirectories in a fresh directory, idempotent; refuses a file and a missing directory
 	{
 		od := filepath.Join(f.Work, "c05open")
@@ -1286,8 +1595,10 @@ func runC05(f *common.Flags, res *common.Result, m *mdl) {
 		}
 		os.RemoveAll(od)
 	}
+	phase("4")
 	// 4. the operations every call performs, through the os shim
 	runC05Traces(f, res, m, nTrace)
+	phase("5")
 	// 5. Put under file-operation faults, lookups on a shared Cache value, descriptor exhaustion
 	faults := ""
 	if f.Replay == "" {
